@@ -609,7 +609,7 @@ func TestC01Controller(t *testing.T) {
 	if allKinds {
 		kinds = "answered with any other outcome (refused, removed-but-not-created, any prefix-closed sub-tree of Old or New)"
 	}
-	r.Rule(fmt.Sprintf("two-way-safe sessions of the REAL Manager/controller on two scripted in-memory disks, root directory with slot a in {nil,F1,F2,D{},D{x:F1},D{x:F2}}: every history of <= %d steps, a step = (user rewrites slot a on alpha to any value or leaves it) x (same on beta) x one real cycle, where in at most %d cycle(s) of the history one requested transition is %s or one endpoint's Transition fails as a whole; level-synchronous search, a history is extended only from the first (in a fixed order) history reaching each (archive, disks, last-agreed record, faults used) state; a case = one history, judged on every cycle; non-trivial = its last cycle requested a transition, listed a conflict or had a fault", maxDepth, maxFaults, kinds))
+	r.Rule(fmt.Sprintf("two-way-safe sessions of the REAL Manager/controller on two scripted in-memory disks, root directory with slot a in {nil,F1,F2,D{},D{x:F1},D{x:F2}}: every history of <= %d steps, a step = (user rewrites slot a on alpha to any value or leaves it) x (same on beta) x one real cycle, where in at most %d cycle(s) of the history one requested transition is %s or one endpoint's Transition fails as a whole; level-synchronous search, a history is extended only from the first (in a fixed order) history reaching each (archive, provenance of its entries, disks, last-agreed record, faults used) state; a case = one history, judged on every cycle; non-trivial = its last cycle requested a transition, listed a conflict or had a fault", maxDepth, maxFaults, kinds))
 	r.Assume("one slot with one nested name, two file digests; symbolic links, untracked content and deeper trees are covered at the core level (checks/recon)",
 		"a refused transition leaves the disk as it was; a failing endpoint leaves its disk unchanged and returns the planned entries next to its error",
 		"the scripted endpoint applies a requested change only if Old matches its disk (as the real transition's just-in-time check does)")
@@ -620,9 +620,9 @@ func TestC01Controller(t *testing.T) {
 
 // TestC02Controller is the same history search under the three other modes,
 // judged for C02's clauses (alpha untouched in one-way modes; one-way-safe
-// keeps beta's modifications, two-way-resolved keeps alpha's). It is NOT
-// registered in INDEX (C02 is owned by checks/recon and checks/session); the
-// coordinator may add the line "C02 ctrl TestC02Controller 15m 45m".
+// keeps beta's modifications, two-way-resolved keeps alpha's). Registered as an
+// additional C02 leg (the META entry is recon's). Known finding on the
+// unchanged tree: see classKeyRefusedReport.
 func TestC02Controller(t *testing.T) {
 	r := vr.New(t, "C02", "exploration")
 	defer r.Finish()
@@ -649,7 +649,7 @@ func TestC02Controller(t *testing.T) {
 	if vr.Thorough() {
 		maxDepth, maxFaults, allKinds = 12, 2, true
 	}
-	r.Rule(fmt.Sprintf("as TestC01Controller (histories of <= %d cycles of the real Manager/controller on scripted disks, <= %d faulty cycle(s) per history) under one-way-safe, one-way-replica and two-way-resolved; judged: alpha's endpoint receives no staging/transition request and its disk is unchanged in one-way modes; one-way-safe never replaces beta content that differs from the last agreed content; two-way-resolved never replaces such alpha content; non-trivial = the last cycle requested a transition, listed a conflict or had a fault", maxDepth, maxFaults))
+	r.Rule(fmt.Sprintf("as TestC01Controller (histories of <= %d cycles of the real Manager/controller on scripted disks, <= %d faulty cycle(s) per history) under one-way-safe, one-way-replica and two-way-resolved; judged: alpha's endpoint receives no staging/transition request and its disk is unchanged in one-way modes; one-way-safe never replaces beta content that differs from the last agreed content; two-way-resolved never replaces such alpha content; a violation is keyed by its history, except the one class with a single exact root cause (the replaced protected content equals the archive entry at that path AND the harness's provenance record says that entry was recorded from the other endpoint's refused/partial transition report where the sides never agreed), which gets the class key ctrl|<mode>|protected-content-equals-archive-entry-recorded-from-refused-transition; non-trivial = the last cycle requested a transition, listed a conflict or had a fault", maxDepth, maxFaults))
 	r.Assume("same bounds as the C01 controller leg; the scripted alpha endpoint accepts requests (the read-only refusal of the real local endpoint is decided in checks/recon's endpoint leg)")
 	deadline := scaledDeadline(55*time.Second, 9*time.Minute)
 	for _, m := range []core.SynchronizationMode{
